@@ -273,13 +273,24 @@ def collect():
             return False
         return isinstance(v, sa.sql.ClauseElement)
     func_guard = all(guard_probe(n) for n, c in func_py_attrs if c == 'pyattr')
+
+    def refused(name):
+        try:
+            r0.to_function(A.Function(name, []))
+        except NotImplementedError:
+            return True
+        except Exception:
+            return False
+        return False
+    # names made of underscores only that ARE generators (`_`; `__`, `___` are AttributeErrors anyway): refused?
+    func_empty_guard = refused('_') and not refused('a_') and not refused('_x')
     return dict(types_map=tm[DIALECT_NAMES[0]], types_uniform=uniform, dialects=dn, dialect_keys=init_dict,
                 methods=dicts.get('methods', []), functions=[k for k, _ in dicts.get('functions', [])],
                 opmap=dicts.get('opmap', []), caught=caught, regexes=regexes, type_assigns=type_assigns,
                 create_table_literals=pct, join_literals=join_lits, attr_stores=sorted(set(attr_stores)), param_writes=sorted(set(param_writes)),
                 list_ops=list_ops, text_has=text_has, tuple_is_list=tuple_is_list, dup_exc=dup_exc,
                 pg_keeps_literal=pg_keeps_literal, pg_probe=pg_text, func_py_attrs=func_py_attrs, dunder_rule=dunder_rule,
-                func_guard=func_guard)
+                func_guard=func_guard, func_empty_guard=func_empty_guard)
 
 
 def emit(d):
@@ -310,6 +321,8 @@ def emit(d):
          'def funcDunderRule : Bool := ' + ('true' if d['dunder_rule'] else 'false'),
          '/-- probed: `to_function` on every python-attribute name raises NotImplementedError (never returns a non-SQL value) -/',
          'def funcGuard : Bool := ' + ('true' if d['func_guard'] else 'false'),
+         '/-- probed: `to_function` refuses (NotImplementedError) the generator name `_`, which sa.func would turn into the EMPTY function name; `a_`, `_x` are accepted -/',
+         'def funcEmptyGuard : Bool := ' + ('true' if d['func_empty_guard'] else 'false'),
          '/-- exception classes named in the `except` clause of get_exec_params -/',
          'def caught : List String := ' + lean_list(lean_str(x) for x in d['caught']),
          '/-- regex literals of get_type, in order, and its assignments -/',
